@@ -370,6 +370,56 @@ theorem C19_site_cache_witness :
     s.ok = false ∧ s.rejected (some .string) (some .int) false .int = false ∧ check (some .string) .int = false := by
   decide
 
+/-! ### F. the argument-binding loops of the generic call path -/
+
+/-- **Generic.** A binding loop that tests the result of every iteration refuses the call exactly when SOME
+argument — at whatever position, whatever follows it — is refused by its own `param` site (`C19_sites_generic`:
+non-null and not accepted by the receiver object's own type argument); and when the call is not refused every
+parameter reached is bound.  So the body of a constructor / method of a generic instantiation only ever runs with
+all its `T`-typed parameters holding values of the instantiation's own type arguments. -/
+theorem C19_bind_loops_generic (l : BindLoop) (hok : l.ok = true) (args : List Arg) :
+    ((bindRun l.shape args).1 = true ↔ ∃ a ∈ args, argRefused a = true) ∧
+    ((bindRun l.shape args).1 = false → (bindRun l.shape args).2 = args.map (fun _ => true)) := by
+  have hs : l.shape = .eachChecked := by
+    unfold BindLoop.ok at hok
+    exact eq_of_beq hok
+  rw [hs]
+  refine ⟨?_, bindEach_bound args⟩
+  show (bindEach args).1 = true ↔ _
+  rw [bindEach_refused, List.any_eq_true]
+
+/-- **Generic.** One position of a call is one `param` site: a well-formed site (`C19_sites_obligation`) refuses the
+value at that position exactly when `argRefused` says so for the parameter's effective type under the receiver's own
+instantiation, whatever the executing node kept. -/
+theorem C19_bind_position_is_site (s : Site) (hok : s.ok = true) (hk : s.kind = .param)
+    (own kept : Option Ty) (extra : Bool) (v : Val) :
+    s.rejected own kept extra v = argRefused (own, v) :=
+  site_param s hok hk own kept extra v
+
+/-- **Generic.** The loop that keeps the results in one variable tested after the loop answers by the LAST
+argument alone (an empty call is accepted). -/
+theorem C19_bind_loop_last_only (args : List Arg) :
+    (bindRun .lastOnly args).1 = (match args.getLast? with | none => false | some a => argRefused a) :=
+  bindLastGo_eq false args
+
+/-- **Characterisation.** Of the shapes the translator distinguishes, testing every iteration is the only one
+under which a call is refused iff some argument is. -/
+theorem C19_bind_loop_shape_iff (sh : LoopShape) :
+    (∀ args, (bindRun sh args).1 = args.any argRefused) ↔ sh = .eachChecked :=
+  bindRun_right_iff sh
+
+/-- Obligation on the regenerated table: every binding loop of the generic path (the constructor of
+`new C<…>(…)` in `new.go`, the method call in `call_object_method.go`) tests each iteration's result. -/
+theorem C19_bind_loops_obligation : BindLoopsWF Generated.C19.bindLoops = true := by decide
+
+/-- **Negation witness** (seed `C19-generic-ctor-bind-last-wins`): `new Pair<int,string>("x", "s")` through the
+single-variable loop is accepted and the body runs with the refused parameter unbound; the loop of the unchanged
+code refuses it before anything else is bound. -/
+theorem C19_ctor_bind_last_wins_witness :
+    bindRun .lastOnly [(some .int, .string), (some .string, .string)] = (false, [false, true]) ∧
+    bindRun .eachChecked [(some .int, .string), (some .string, .string)] = (true, []) ∧
+    bindRun .lastOnly [(some .int, .int), (some .string, .int)] = (true, [true, false]) := by decide
+
 /-! ### D. the written type argument -/
 
 /-- **Generic.** Names compared through `q` (`q = id`: `==`; `q = lower-case`: `EqualFold`): normalising the
@@ -438,6 +488,8 @@ example : cloneRunOf Generated.C19.cloneReturns sortedKey [[.int, .string], [.st
 example : Generated.C19.resolvers.all Resolver.ok = true := by decide
 example : nodeRuns rawResolver (0 : Nat) 1 3 none = [1, 0, 0] := by decide
 example : Generated.C19.sites.isEmpty = false ∧ Generated.C19.nameCmps.isEmpty = false := by decide
+example : Generated.C19.bindLoops.isEmpty = false ∧
+    Generated.C19.bindLoops.all (fun l => (bindRun l.shape forgotten).1) = true := by decide
 
 end Tie
 
